@@ -1,6 +1,7 @@
 package c04
 
 import (
+	"sort"
 	"encoding/json"
 	"fmt"
 	"math"
@@ -464,6 +465,40 @@ func TestAliasTable(t *testing.T) {
 		}
 	}
 	evid.Exhaustive("alias ways x write ways", n)
+}
+
+// TestEmptyCollectionsKeepIdentity: an empty map is a collection like any other - read out of a list or a map (by an
+// index, by a path of indices, as the element a for-in delivers, through a slice of its parent) it is the very map the
+// parent holds, so a key stored through the name it was read into shows in the parent, and the other way round.
+func TestEmptyCollectionsKeepIdentity(t *testing.T) {
+	set := func(obj *gen.Node, k string, v *gen.Node) *gen.Node {
+		return gen.NAssign("=", []*gen.Node{gen.NIndex(obj, gen.NStr(k))}, []*gen.Node{v})
+	}
+	cases := map[string][]*gen.Node{
+		"map-in-map/index": {gen.NSet("p", gen.NMap(gen.NStr("a"), gen.NMap())), gen.NSet("x", gen.NIndex(id("p"), gen.NStr("a"))), set(id("x"), "k", gen.NInt(1))},
+		"map-in-list/index": {gen.NSet("p", gen.NList(gen.NMap(), gen.NMap())), gen.NSet("x", gen.NIndex(id("p"), gen.NInt(-1))), set(id("x"), "k", gen.NInt(1))},
+		"map-in-list/for-in": {gen.NSet("p", gen.NList(gen.NMap(), gen.NMap(gen.NStr("z"), gen.NInt(0)), gen.NMap())), gen.NForIn("r", id("p"), []*gen.Node{set(id("r"), "k", gen.NInt(1))}), gen.NSet("x", gen.NNil())},
+		"map-in-map-in-map/path": {gen.NSet("p", gen.NMap(gen.NStr("a"), gen.NMap(gen.NStr("b"), gen.NMap()))), gen.NSet("x", gen.NIndex(id("p"), gen.NStr("a"), gen.NStr("b"))), set(id("x"), "k", gen.NList())},
+		"map-in-list-in-list/path": {gen.NSet("p", gen.NList(gen.NList(gen.NMap()))), gen.NSet("x", gen.NIndex(id("p"), gen.NInt(0), gen.NInt(0))), set(id("x"), "k", gen.NInt(1))},
+		"map-in-list/through-slice": {gen.NSet("p", gen.NList(gen.NInt(0), gen.NMap())), gen.NSet("s", gen.NSlice(id("p"), gen.NInt(1), nil, nil, false)), gen.NSet("x", gen.NIndex(id("s"), gen.NInt(0))), set(id("x"), "k", gen.NInt(1))},
+		"named-then-stored": {gen.NSet("x", gen.NMap()), gen.NSet("p", gen.NMap(gen.NStr("a"), id("x"))), gen.NAssign("=", []*gen.Node{gen.NIndex(id("p"), gen.NStr("a"), gen.NStr("k"))}, []*gen.Node{gen.NInt(1)})},
+		"read-twice": {gen.NSet("p", gen.NMap(gen.NStr("a"), gen.NMap())), gen.NSet("x", gen.NIndex(id("p"), gen.NStr("a"))), gen.NSet("y", gen.NIndex(id("p"), gen.NStr("a"))), set(id("y"), "k", gen.NInt(1)), gen.NCall("probe", gen.NStr("y"), id("y"))},
+		"nested-for-in": {gen.NSet("p", gen.NList(gen.NList(gen.NMap()), gen.NList(gen.NMap(), gen.NMap()))), gen.NForIn("row", id("p"), []*gen.Node{gen.NForIn("cell", id("row"), []*gen.Node{set(id("cell"), "k", gen.NCall("len", id("row")))})}), gen.NSet("x", gen.NNil())},
+		"emptied-then-read": {gen.NSet("p", gen.NMap(gen.NStr("a"), gen.NMap())), gen.NSet("x", gen.NIndex(id("p"), gen.NStr("a"))), set(id("x"), "k", gen.NMap()), gen.NSet("x", gen.NIndex(id("x"), gen.NStr("k"))), set(id("x"), "deep", gen.NBool(true))},
+	}
+	var names []string
+	for k := range cases {
+		names = append(names, k)
+	}
+	sort.Strings(names)
+	n := 0
+	for _, name := range names {
+		prog := gen.CloneProg(cases[name])
+		prog = append(prog, gen.NCall("probe", gen.NStr("r"), id("p"), id("x")), gen.NCall("add_key", id("snap"), id("p")))
+		judge(t, "emptyidentity", sem.NewCase(gen.FixAll(prog)), "emptyidentity/"+name, true, "empty-collection-identity")
+		n++
+	}
+	evid.Exhaustive("empty maps read out of their parents, written through the name", n)
 }
 
 // TestLiteralReevaluation: a collection literal that is evaluated more than once (in a loop, in two statements)
